@@ -181,17 +181,24 @@ inductive Ty where
   | bool | int | str
 deriving Repr, DecidableEq
 
-def intText (i : Int) : Str := (toString i).toList
+/-- decimal text of a natural number (`str(n)`) -/
+def natText (n : Nat) : Str := Nat.toDigits 10 n
+
+/-- `str(i)` for an int -/
+def intText : Int → Str
+  | .ofNat n => natText n
+  | .negSucc n => '-' :: natText (n + 1)
+
+/-- value of a non-empty run of ASCII digits -/
+def digitsVal (d : List Char) : Option Nat :=
+  if d.isEmpty || !d.all Char.isDigit then none else some (Nat.ofDigitChars 10 d 0)
 
 /-- Python `int(text)` for an optional sign and ASCII digits -/
 def pyInt (s : Str) : Option Int :=
-  let digits (d : List Char) : Option Nat :=
-    if d.isEmpty || !d.all Char.isDigit then none
-    else some (d.foldl (fun n c => n * 10 + (c.toNat - 48)) 0)
   match s with
-  | '-' :: d => (digits d).map (fun n => -(n : Int))
-  | '+' :: d => (digits d).map (fun n => (n : Int))
-  | d => (digits d).map (fun n => (n : Int))
+  | '-' :: d => (digitsVal d).map (fun n => -(n : Int))
+  | '+' :: d => (digitsVal d).map (fun n => (n : Int))
+  | d => (digitsVal d).map (fun n => (n : Int))
 
 def load (h : HList) : ODict :=
   match getKey h "cache-control".toList with
@@ -245,6 +252,20 @@ def getValue (d : ODict) (key : Str) (emptyTrue : Bool) (ty : Ty) : Got :=
 def delValue (d : ODict) (key : Str) : Out ODict Unit :=
   if has d key then ⟨erase d key, true, .ok ()⟩ else ⟨d, false, .ok ()⟩
 
+inductive Op where
+  /-- `cc.<attr> = value` for the directive `key` of type `ty` -/
+  | attr (key : Str) (ty : Ty) (v : Val)
+  /-- `del cc.<attr>` -/
+  | delattr (key : Str)
+  /-- a dict mutator (`CallbackDict`) -/
+  | dict (op : DOp (Option Str))
+deriving Repr, DecidableEq
+
+def step (d : ODict) : Op → Out ODict (Option (Option Str))
+  | .attr key ty v => let r := setValue d key ty v; ⟨r.st, r.notified, r.res.map fun _ => none⟩
+  | .delattr key => let r := delValue d key; ⟨r.st, r.notified, r.res.map fun _ => none⟩
+  | .dict op => dstep d op
+
 end CC
 
 /-! ### Content-Security-Policy -/
@@ -282,6 +303,17 @@ def setValue (d : St) (key : Str) (v : Option Str) : Out St Unit :=
 def delValue (d : St) (key : Str) : Out St Unit :=
   if has d key then ⟨erase d key, true, .ok ()⟩ else ⟨d, false, .ok ()⟩
 
+inductive Op where
+  | attr (key : Str) (v : Option Str)
+  | delattr (key : Str)
+  | dict (op : DOp Str)
+deriving Repr, DecidableEq
+
+def step (d : St) : Op → Out St (Option Str)
+  | .attr key v => let r := setValue d key v; ⟨r.st, r.notified, r.res.map fun _ => none⟩
+  | .delattr key => let r := delValue d key; ⟨r.st, r.notified, r.res.map fun _ => none⟩
+  | .dict op => dstep d op
+
 end CSP
 
 /-! ### Content-Range -/
@@ -309,13 +341,9 @@ def valid (start stop length : Option Int) : Bool :=
 
 /-- `_plain_int` : strip, then `-?\d+` -/
 def plainInt (s : Str) : Option Int :=
-  let t := strip s
-  let digits (d : List Char) : Option Nat :=
-    if d.isEmpty || !d.all Char.isDigit then none
-    else some (d.foldl (fun n c => n * 10 + (c.toNat - 48)) 0)
-  match t with
-  | '-' :: d => (digits d).map (fun n => -(n : Int))
-  | d => (digits d).map (fun n => (n : Int))
+  match strip s with
+  | '-' :: d => (CC.digitsVal d).map (fun n => -(n : Int))
+  | d => (CC.digitsVal d).map (fun n => (n : Int))
 
 /-- `value.strip().split(None, 1)` when it has two parts -/
 def splitWs1 (s : Str) : Option (Str × Str) :=
@@ -373,6 +401,13 @@ def write (h : HList) (c : St) : HList × Except String Unit :=
     match toHeader c with
     | .ok t => ((Hdr.set h "Content-Range".toList t).1, (Hdr.set h "Content-Range".toList t).2)
     | .error e => (h, .error e)
+
+/-- `Response.content_range` getter: the `ContentRange` constructor calls `set`, which calls the
+freshly installed `on_update` - so *reading* the property rewrites the header in normal form (or
+deletes an unparsable one) -/
+def fetch (h : HList) : St × HList :=
+  let c := load h
+  (c, (write h c).1)
 
 inductive Op where
   | setUnits (u : Option Str)
